@@ -116,7 +116,9 @@ func RoutesSpecs() []*spec.Spec {
 	for _, bp := range []struct{ api, svc, label string }{
 		{"/api/v1", "", "api"}, {"", "/svc", "service"}, {"/api/v1", "/svc", "api+service"}, {"/api/", "/svc/", "trailing-slashes"},
 	} {
-		f := func(kind string) map[string]string { return map[string]string{"route": "base-path", "base": bp.label, "path": kind} }
+		f := func(kind string) map[string]string {
+			return map[string]string{"route": "base-path", "base": bp.label, "path": kind}
+		}
 		add(&spec.Spec{APIPath: bp.api, Services: []*spec.Service{{Name: "s0", Path: bp.svc, Methods: []*spec.Method{
 			basic(0, "GET", "/m0", f("plain")),
 			basic(1, "POST", "/", f("root")),
